@@ -66,6 +66,7 @@ class Validator:
             self.discard: Optional[Collection[FieldOrName]] = (field,)
         else:
             self.discard = discard
+        self.owner: Optional[Type] = None
         self.dependencies: AbstractSet[str] = set()
         try:
             parameters = signature(func).parameters
